@@ -198,15 +198,15 @@ SL = M + "/ingesters/syslog"
 AUD = M + "/processors/auditd"
 c13 = []
 for st, nm in ((0, "pipe-waiting-for-writer"), (1, "pipe-idle"), (2, "pipe-between-records")):
-    c13.append(run(nm, NP, "VerifC13NamedPipe", {"params": {"STATE": st}, "preempt": 2}, {"params": {"STATE": st}}, reach=["c13.pipe.returned"],
+    c13.append(run(nm, NP, "VerifC13NamedPipe", {"params": {"STATE": st}, "preempt": 2}, {"params": {"STATE": st}, "preempt": 4}, reach=["c13.pipe.returned"],
                    bounds="named-pipe ingester cancelled while " + nm.replace("-", " ")))
 for c in (0, 1, 2):
     c13.append(run("auditlog-full-buffer-cap%d" % c, AL, "VerifC13AuditLogBackPressure", {"params": {"CAP": c}}, None, reach=["c13.auditlog.blocked", "c13.auditlog.returned"],
                    bounds="audit ingester blocked handing a record to a full channel of capacity %d whose consumer has stopped" % c))
-c13.append(run("auditlog-through-pipe", AL, "VerifC13AuditLogIngest", {"params": {"CAP": 1}, "preempt": 2}, {"params": {"CAP": 2}}, reach=["c13.auditlog.ingest-returned"],
+c13.append(run("auditlog-through-pipe", AL, "VerifC13AuditLogIngest", {"params": {"CAP": 1}, "preempt": 2}, {"params": {"CAP": 2}, "preempt": 3}, reach=["c13.auditlog.ingest-returned"],
                bounds="audit ingester reading its FIFO with the downstream channel full"))
 for form, fname in ((0, "password"), (1, "key"), (2, "cert"), (3, "key-trailing-text")):
-    c13.append(run("syslog-hand-off-" + fname, SL, "VerifC13SyslogHandOff", {"params": {"FORM": form}, "preempt": 2}, {"params": {"FORM": form}}, reach=["c13.syslog.blocked", "c13.syslog.returned"],
+    c13.append(run("syslog-hand-off-" + fname, SL, "VerifC13SyslogHandOff", {"params": {"FORM": form}, "preempt": 2}, {"params": {"FORM": form}, "preempt": 3}, reach=["c13.syslog.blocked", "c13.syslog.returned"],
                    bounds="sshd pipe ingester blocked handing a login (accepted %s line) to a correlator that never receives" % fname))
 c13.append(run("auditd-idle", AUD, "VerifC13AuditdIdle", {"params": {}, "preempt": 1}, {"params": {}, "preempt": 3}, reach=["c13.auditd.idle", "c13.auditd.returned"],
                bounds="audit processor idle in its select, both inputs silent"))
